@@ -4,7 +4,26 @@
 //!           [--budget seconds] [--opt k=v ...]
 
 #![allow(dead_code, unused_imports)]
+mod c01_bodies;
+mod c02_answers;
+mod c03_smuggling;
 mod c04_router;
+mod c05_roundtrip;
+mod c06_diff;
+mod c07_rejected;
+mod c08_worker;
+mod c09_hub;
+mod c10_handover;
+mod c11_channel;
+mod c12_backends;
+mod c13_headers;
+mod c14_h2limits;
+mod c15_h2hostile;
+mod c16_resources;
+mod c17_tls;
+mod c18_tcp;
+mod c19_udp;
+mod c20_configfile;
 mod common;
 
 use std::{collections::BTreeMap, path::PathBuf, time::{Duration, Instant}};
@@ -13,7 +32,26 @@ use common::{Ctx, Report, Tier};
 
 fn dispatch(name: &str, ctx: &Ctx) -> Option<Report> {
     Some(match name {
+        "C01" => c01_bodies::run(ctx),
+        "C02" => c02_answers::run(ctx),
+        "C03" => c03_smuggling::run(ctx),
         "C04" => c04_router::run(ctx),
+        "C05" => c05_roundtrip::run(ctx),
+        "C06" => c06_diff::run(ctx),
+        "C07" => c07_rejected::run(ctx),
+        "C08" => c08_worker::run(ctx),
+        "C09" => c09_hub::run(ctx),
+        "C10" => c10_handover::run(ctx),
+        "C11" => c11_channel::run(ctx),
+        "C12" => c12_backends::run(ctx),
+        "C13" => c13_headers::run(ctx),
+        "C14" => c14_h2limits::run(ctx),
+        "C15" => c15_h2hostile::run(ctx),
+        "C16" => c16_resources::run(ctx),
+        "C17" => c17_tls::run(ctx),
+        "C18" => c18_tcp::run(ctx),
+        "C19" => c19_udp::run(ctx),
+        "C20" => c20_configfile::run(ctx),
         _ => return None,
     })
 }
